@@ -3,6 +3,15 @@
 package c15
 
 import (
+	"verif/harness/keys"
+	"github.com/ucan-wg/go-ucan/pkg/policy"
+	"github.com/ucan-wg/go-ucan/pkg/container"
+	"github.com/ucan-wg/go-ucan/token/invocation"
+	"github.com/ucan-wg/go-ucan/token/delegation"
+	"github.com/ucan-wg/go-ucan/token"
+	"github.com/ipfs/go-cid"
+	"bytes"
+	"sync"
 	"fmt"
 	"os"
 	"strings"
@@ -344,9 +353,68 @@ func TestCoversExhaustive(t *testing.T) {
 type ParseCase struct {
 	S     string
 	Prime int `json:",omitempty"` // 0 no, 1 New(segs...), 2 Top().Join(segs...), 3 New(first).Join(rest...)
+	// Warm: before Parse(S) is judged, OTHER packages that use commands have been at work in this process (bit 0: a
+	// sealed delegation is decoded, 1: an invocation is built, sealed, decoded and checked, 2: a container is written
+	// and read, 3: a policy is parsed). What Parse accepts is a function of the string, not of what the process did
+	// before.
+	Warm int `json:",omitempty"`
 }
 
-var parseRunes = []rune{'/', '/', '/', 'a', 'b', 'z', 'A', 'Z', 'é', 'É', 'ß', 'ж', 'Ж', '1', '-', '_', ' ', '.', 'ほ', 'Σ', 'σ', 'ς', 'Ⅰ', 'ⅰ', 'Ⓐ', 'ⓐ', 'ǅ', '𝐀', 'ſ', 'µ'}
+var warmOnce sync.Once
+var warmDlg, warmInv, warmCar []byte
+var warmDlgCid cid.Cid
+
+func warmUp(bits int) {
+	warmOnce.Do(func() {
+		iss, aud := keys.Principal(0), keys.Principal(1)
+		d, err := delegation.Root(iss.DID, aud.DID, command.MustParse("/warm/up"), policy.Policy{}, delegation.WithNonce(bytes.Repeat([]byte{1}, 12)))
+		if err != nil {
+			panic(err)
+		}
+		warmDlg, warmDlgCid, _ = d.ToSealed(iss.Priv)
+		iv, err := invocation.New(aud.DID, iss.DID, command.MustParse("/warm/up/now"), []cid.Cid{warmDlgCid}, invocation.WithNonce(bytes.Repeat([]byte{2}, 12)))
+		if err != nil {
+			panic(err)
+		}
+		var ivc cid.Cid
+		warmInv, ivc, _ = iv.ToSealed(aud.Priv)
+		w := container.NewWriter()
+		w.AddSealed(warmDlgCid, warmDlg)
+		w.AddSealed(ivc, warmInv)
+		warmCar, _ = w.ToCar()
+	})
+	if bits&1 != 0 {
+		_, _, _ = delegation.FromSealed(warmDlg)
+	}
+	if bits&2 != 0 {
+		if t, _, err := invocation.FromSealed(warmInv); err == nil {
+			if d, _, err := delegation.FromSealed(warmDlg); err == nil {
+				_ = t.ExecutionAllowed(oneLoader{warmDlgCid, d})
+			}
+		}
+	}
+	if bits&4 != 0 {
+		_, _ = container.FromCar(warmCar)
+	}
+	if bits&8 != 0 {
+		_, _ = policy.FromDagJson(`[["==", ".a", 1], ["like", ".b", "x*"]]`)
+		_, _, _ = token.FromSealed(warmDlg)
+	}
+}
+
+type oneLoader struct {
+	c cid.Cid
+	d *delegation.Token
+}
+
+func (l oneLoader) GetDelegation(c cid.Cid) (*delegation.Token, error) {
+	if c == l.c {
+		return l.d, nil
+	}
+	return nil, delegation.ErrDelegationNotFound
+}
+
+var parseRunes = []rune{'/', '/', '/', 'a', 'b', 'z', 'A', 'Z', 'é', 'É', 'ß', 'ж', 'Ж', '1', '-', '_', ' ', '.', 'ほ', 'Σ', 'σ', 'ς', 'Ⅰ', 'ⅰ', 'Ⓐ', 'ⓐ', 'ǅ', '𝐀', 'ſ', 'µ', '\t', '\n', '\x00', '\x7f', '\u0085', '\u00a0', '\u200b', '\u2028', '\ufeff', '%', '\\', '"'}
 
 func runParse(c *h.Ctx, pc ParseCase) {
 	if pc.Prime > 0 && strings.HasPrefix(pc.S, "/") && len(pc.S) > 1 {
@@ -362,6 +430,10 @@ func runParse(c *h.Ctx, pc ParseCase) {
 			}
 		})
 		c.P.Class("parse/primed")
+	}
+	if pc.Warm > 0 {
+		warmUp(pc.Warm)
+		c.P.Class("parse/after-other-packages")
 	}
 	want, specified := refValid(pc.S)
 	if !specified {
@@ -426,6 +498,9 @@ var parse = h.Define(P, "parse", func(t *rapid.T) ParseCase {
 	pc := ParseCase{S: s}
 	if rapid.IntRange(0, 2).Draw(t, "prime") == 0 {
 		pc.Prime = rapid.IntRange(1, 3).Draw(t, "primekind")
+	}
+	if rapid.IntRange(0, 3).Draw(t, "warm") == 1 {
+		pc.Warm = rapid.IntRange(1, 15).Draw(t, "warmbits")
 	}
 	return pc
 }, runParse)
